@@ -232,10 +232,12 @@ class SO2(SMPose):
         :rtype: SE2 instance
 
         """
+        # (check=False: the rotation is already held by a valid object; re-validating
+        # refused values that have drifted past 100 eps through a few products)
         if len(self) == 1:
-            return SE2(tr.rt2tr(self.A, [0, 0]))
+            return SE2(tr.rt2tr(self.A, [0, 0]), check=False)
         else:
-            return SE2([tr.rt2tr(x, [0, 0]) for x in self.A])
+            return SE2([tr.rt2tr(x, [0, 0]) for x in self.A], check=False)
 
 
 # ============================== SE2 =====================================#
@@ -502,7 +504,7 @@ class SE2(SO2):
             y[:2, 3] = x.A[:2, 2]
             y[2, 3] = z
             return y
-        return p3.SE3([lift3(x) for x in self])
+        return p3.SE3([lift3(x) for x in self], check=False)
 
     def Twist2(self):
         from spatialmath.twist import Twist2
